@@ -199,6 +199,15 @@ class Renderer:
             self.block(s.body, ind + 1)
             self.emit(pad + "}")
             self.nl()
+        elif k == "dowhile":
+            self.emit(pad + "do {")
+            self.nl()
+            self._fuel(ind + 1)
+            self.block(s.body, ind + 1)
+            self.emit(pad + "} while (")
+            self.expr(s.c)
+            self.emit(");")
+            self.nl()
         elif k == "for":
             self.emit("%sfor (int %s = %d; " % (pad, s.var, s.lo))
             self.expr(s.c)
@@ -284,7 +293,10 @@ class Func:
         def visit_stmts(stmts):
             for s in stmts:
                 k = s.kind
-                if k in ("if", "while", "for"):
+                if k == "dowhile":
+                    visit_stmts(s.body)
+                    visit_cond(s.c, True)
+                elif k in ("if", "while", "for"):
                     visit_cond(s.c, True)
                     if k == "if":
                         visit_stmts(s.then)
